@@ -7,7 +7,7 @@ the fault plan and the oracles switched on)."""
 import os
 import signal
 
-from psim import (PIPE_CAP, HarnessError, Sim, Violation, crc, fd_snapshot, pipe_ino, proc_fields, proc_state,
+from psim import (PIPE_CAP, HarnessError, Sim, Violation, crc, fd_snapshot, pipe_blocked_state, pipe_ino, proc_fields, proc_state,
                   stream_bytes)
 
 POLLIN, POLLOUT, POLLERR, POLLHUP, POLLNVAL = 1, 4, 8, 16, 32
@@ -296,6 +296,10 @@ class Runner:
             sim.close()
 
     def shell_env(self):
+        if self.sc.get("hostile_env"):
+            # an unwritable log file (full disk) and a search path whose first entry does not exist: whatever the shell
+            # or a forked child has to say about that must not end up in a pipe or in a captured output
+            return {"CICADA_LOG_FILE": "/dev/full", "PATH": "/nonexistent-dir-verif:" + self.sim.bin + ":/usr/bin:/bin"}
         return {}
 
     def prepare_files(self):
@@ -849,6 +853,15 @@ class Runner:
             else:
                 for i, x, st in self.pending_externals():
                     choices.append(("ext", i, x, st))
+            if self.sc.get("stall_builtin") and getattr(self, "builtin_stalls_left", 3) > 0:
+                # fault: a builtin stage (a forked copy of the shell) that sits blocked writing into a full pipe is
+                # stopped and continued at once: its interrupted write returns a partial count
+                for pid, c in sim.children.items():
+                    if c["kind"] == "free" and proc_state(pid) == "S":
+                        b = pipe_blocked_state(pid)
+                        if b is not None and b[0] == "write" and b[3]:
+                            choices.append(("stallfree", pid))
+                            break
             if shell_blocked is not None and self.sc.get("stall_shell"):
                 # fault: the shell itself is stalled (SIGSTOP) while it drains a capture pipe or feeds a
                 # here-string; its children go on; it is continued later
@@ -884,6 +897,15 @@ class Runner:
                 sim.fault("shell_stalled")
                 sim.ev("shell stalled")
                 continue
+            elif c[0] == "stallfree":
+                self.builtin_stalls_left = getattr(self, "builtin_stalls_left", 3) - 1
+                os.kill(c[1], signal.SIGSTOP)
+                sim.wait_state(c[1], "TZX", "stall of a builtin stage")
+                os.kill(c[1], signal.SIGCONT)
+                sim.wait_state(c[1], "RSDZX", "continuation of a builtin stage")
+                sim.fault("blocked_builtin_stage_stalled")
+                sim.ev("builtin stage stalled", self.stages[c[1]].label() if c[1] in self.stages else "?")
+                self.wait_dirty = True
             elif c[0] == "unstall":
                 self.unstall()
                 return False
